@@ -239,6 +239,12 @@ pub fn run(ctx: &Ctx) -> i32 {
     let mut l = lens::dense(dense_n);
     let pool = lens::thin(&lens::pool(dense_n, t.pick(1 << 18, 1 << 22)), t.pick(60, 500));
     l.extend(pool.iter().map(|x| x.0));
+    for (b, _) in lens::beyond_u16(t == crate::framework::Tier::Thorough) {
+        if !l.contains(&b) {
+            l.push(b);
+        }
+    }
+    l.sort();
     l.reverse();
     let seed = ctx.seed;
     let parts = par_map(&l, |_, &n| {
@@ -268,7 +274,7 @@ pub fn run(ctx: &Ctx) -> i32 {
     rep.set("pool_lengths", Json::Arr(pool.iter().map(|x| Json::Int(x.0 as i64)).collect()));
     rep.set("exact_layer_max_n", ex_n);
     rep.rule = format!(
-        "planners x {{f32,f64}} x every n in 1..={dn} (plus {pc} pool lengths up to {ph}) x both orders of requesting the two directions from ONE planner x 4 entry points x 6 inputs (dense uniform, impulse, ones, ramp, wide dynamic range, positive dense): inv(fwd(x)) and fwd(inv(x)) against n*x with allowance (2B+B^2)*n*||x||, inv(x) against conj(fwd(conj(x))) with allowance 2B*sqrt(n)*||x||, B = 16*eps*log2(2n); exact layer: FftPlanner::<Fp>, every n in 1..={en}, both orders, 4 entry points, complete basis + a dense vector, the three identities as equalities in F_p. Non-trivial: n >= 2.",
+        "planners x {{f32,f64}} x every n in 1..={dn} (plus {pc} pool lengths up to {ph} and one length of every plan class just above 2^16 up to ~2^20) x both orders of requesting the two directions from ONE planner x 4 entry points x 6 inputs (dense uniform, impulse, ones, ramp, wide dynamic range, positive dense): inv(fwd(x)) and fwd(inv(x)) against n*x with allowance (2B+B^2)*n*||x||, inv(x) against conj(fwd(conj(x))) with allowance 2B*sqrt(n)*||x||, B = 16*eps*log2(2n); exact layer: FftPlanner::<Fp>, every n in 1..={en}, both orders, 4 entry points, complete basis + a dense vector, the three identities as equalities in F_p. Non-trivial: n >= 2.",
         dn = dense_n,
         pc = pool.len(),
         ph = t.pick(1 << 18, 1 << 22),
